@@ -374,7 +374,9 @@ class Module(metaclass=ModuleMeta):
                     self.index or 0, self.mtype, name, evalue, emin, emax
                 ),
             )
-            value = raw_value
+            # Keep the out-of-range value, converted like an in-range one would be,
+            # so that get_raw() gives back the raw value that was loaded.
+            value = from_raw_value(raw_value)
         self.controller_values[name] = value
 
     def propagate_down(self, controller_name, value):
